@@ -454,7 +454,7 @@ def _preset_case(arg):
                         warnings.simplefilter("ignore")
                         AtomGrid.from_preset(int(z), preset, rg, center=centre.copy(), rotate=37, method=method)
                 except Exception:
-                    res.inadm("preset size above the method's largest grid")
+                    res.inadm()
                     continue
                 res.violation(f"preset:{preset}:size-above-maximum-accepted", f"from_preset({z}, {preset!r}, method={method}) "
                               f"built a grid although a sector asks for {int(np.max(npt))} > {top} points", c2)
